@@ -135,7 +135,39 @@ RaceSrvOf(rots, cus) ==
       rot \in rots, cu \in cus, p \in {"none", "ca1", "ca2"} }
 RaceSrv == RaceSrvOf({ UH(1, "names", {nB}, "push") }, { UH(1, "require", TRUE, "cfg"), UH(1, "verify", FALSE, "cfg") })
            \cup RaceSrvOf({ UH(1, "ca", "ca2", "push") }, { UH(1, "require", TRUE, "cfg") })
-HistAll == HistCases \cup InspHist(TRUE) \cup InspHist(FALSE) \cup MatAll \cup RaceSrv
+(* returning peers: a first connection under the initial configuration (a successful one leaves the peer with a session
+   ticket / PSK), then what matters changes, then the peer connects again offering the ticket.
+     ResExpire  the peer's own certificate runs out in between (short1), next to peers whose certificate stays valid;
+     ResPolicy  the policy is tightened / the CA rotated / the context replaced in between (every history that turns a peer
+                that was served into one that must be refused, and the other way round);
+     ResBoth    the certificate runs out AND another context (or a field of the same context that does not bear on client
+                authentication) is updated: with SDS backed contexts the issuing context object survives the update;
+     ResMat     CA rotation by file rewrite / other file / SDS push with a ticket outstanding *)
+R(cl, us, s, p, v, ex) == [side |-> "srv", ctxs |-> cl, upds |-> us, insp |-> FALSE, first |-> "tls",
+                            hello |-> H(s, FALSE, {}, p, v), res |-> [expire |-> ex]]
+ResExpire == { R(cl, <<>>, s, p, v, TRUE) :
+                 cl \in { <<Q({nA}, b, r, "ca1")>> : b, r \in BOOLEAN } \cup {hA2},
+                 s \in {nA, nB}, p \in {"none", "self", "ca1", "short1"}, v \in {12, 13} }
+tN == <<Q({nA}, FALSE, FALSE, "ca1")>>
+tI == <<Q({nA}, TRUE, FALSE, "ca1")>>
+tR == <<Q({nA}, FALSE, TRUE, "ca1")>>
+Tighten == { <<tN, <<U(1, "verify", TRUE)>> >>, <<tN, <<U(1, "require", TRUE)>> >>, <<tN, <<U(1, "verify", TRUE), U(1, "require", TRUE)>> >>,
+             <<tI, <<U(1, "require", TRUE)>> >>, <<tI, <<U(1, "ca", "ca2")>> >>, <<tR, <<U(1, "verify", TRUE)>> >> }
+           \cup { <<hA1, us>> : us \in AuthUpds(1) }
+           \cup { <<hA2, us>> : us \in { <<U(2, "ca", "ca1")>>, <<U(2, "require", TRUE)>>, <<U(1, "ca", "ca2")>> } }
+ResPolicy == { R(t[1], t[2], s, p, v, FALSE) : t \in Tighten, s \in {nA, nB}, p \in {"none", "self", "ca1", "ca2"}, v \in {12, 13} }
+ResBoth == { R(t[1], t[2], s, p, v, TRUE) :
+               t \in { <<hA2, <<U(2, "ca", "ca1")>> >>, <<hA2, <<U(2, "require", TRUE)>> >>, <<hA1, <<U(1, "sn", nU)>> >> },
+               s \in {nA, nB}, p \in {"ca1", "short1"}, v \in {12, 13} }
+ResMat == { [side |-> "srv", ctxs |-> <<M({nA}, TRUE, TRUE, "ca1", "file", "inline")>>, upds |-> us, insp |-> FALSE, first |-> "tls",
+             hello |-> H(nA, FALSE, {}, p, v), res |-> [expire |-> FALSE]] :
+              us \in CaUpds(1, "file", "ca2", "ca1"), p \in {"ca1", "ca2"}, v \in {12, 13} }
+          \cup
+          { [side |-> "srv", ctxs |-> <<M({nA}, TRUE, TRUE, "ca1", "sds", "sds")>>, upds |-> us, insp |-> FALSE, first |-> "tls",
+             hello |-> H(nA, FALSE, {}, p, v), res |-> [expire |-> FALSE]] :
+              us \in CaUpds(1, "sds", "ca2", "ca1"), p \in {"ca1", "ca2"}, v \in {12, 13} }
+ResAll == ResExpire \cup ResPolicy \cup ResBoth \cup ResMat
+HistAll == HistCases \cup InspHist(TRUE) \cup InspHist(FALSE) \cup MatAll \cup RaceSrv \cup ResAll
 
 QuickSrv(x) == SelCases(QuickProfiles, 3, QuickSnis, QuickAlpns, {12, 13}) \cup AuthCases({12, 13}) \cup InspCases \cup HistAll
 ThoroughSrv(x) == SelCases(ThoroughProfiles, 3, ThoroughSnis, ThoroughAlpns, {12, 13}) \cup AuthCases({12, 13}) \cup InspCases \cup HistAll
@@ -163,11 +195,21 @@ RaceUpOf(rots, ccas) ==
       rot \in rots, cu \in { UH(0, "skip", FALSE, "cfg") }, cca \in ccas }
 RaceUp == RaceUpOf({ UH(0, "cert", 1, "push") }, {"ca1", "ca2"}) \cup RaceUpOf({ UH(0, "ca", "ca2", "push") }, {"ca2"})
 
+(* the upstream as a returning peer's counterpart: MOSN connects, the upstream's short-lived certificate runs out / the
+   cluster's CA is rotated / verification is switched on, MOSN connects again (a stock server hands out tickets) *)
+UpResOf(sk, cca, ex, us) == [side |-> "up", cfg |-> [sn |-> nUp, skip |-> sk, ca |-> "ca1"], upds |-> us, res |-> [expire |-> ex],
+                             cert |-> [names |-> {nUp}, ca |-> cca, expired |-> FALSE, short |-> ex]]
+UpRes == { UpResOf(x[1], x[2], x[3], x[4]) :
+             x \in { y \in BOOLEAN \X {"ca1", "ca2"} \X BOOLEAN \X
+                            { <<>>, <<U(0, "ca", "ca2")>>, <<U(0, "skip", TRUE)>>, <<U(0, "skip", FALSE)>>, <<U(0, "sn", nOther)>> } :
+                      /\ (y[3] \/ y[4] # <<>>)                                      \* something changes in between
+                      /\ (y[4] # <<>> /\ y[4][1].field = "skip") => y[4][1].val # y[1] } }
+
 AllUp == { [side |-> "up", cfg |-> [sn |-> sn, skip |-> sk, ca |-> ca], upds |-> <<>>,
             cert |-> [names |-> {nUp}, ca |-> cca, expired |-> ex]] :
              sn \in {<<>>, nUp, nOther}, sk \in BOOLEAN, ca \in {"ca1", "ca2"},
              cca \in {"ca1", "ca2", "self"}, ex \in BOOLEAN }
-         \cup UpHist(TRUE) \cup UpHist(FALSE) \cup UpMat("inline") \cup UpMat("file") \cup UpMat("sds") \cup RaceUp
+         \cup UpHist(TRUE) \cup UpHist(FALSE) \cup UpMat("inline") \cup UpMat("file") \cup UpMat("sds") \cup RaceUp \cup UpRes
 (* only the race cases: the schedule enumeration run *)
 RaceOnlySrv == RaceSrv
 RaceOnlyUp == RaceUp
